@@ -8,6 +8,7 @@ from .. import paths, waiters
 from ..core import FUNC, call_attr, calls_in, const, dotted, kwarg, is_const, norm, text, walk_local
 
 EXPLANATION = [
+    'C09.settle-guard: every set_result / set_exception on a future kept in a channel attribute is under `not <future>.done()`, unless every coroutine waiting on that attribute clears it in a finally (a waiter that timed out leaves a cancelled future behind; settling it raises InvalidStateError in the middle of the link teardown).',
     "C09.waiter-scope: every cancel-on-disconnection wrapper in bumble.l2cap is tied to the operation's own connection (connection.cancel_on_disconnection, or cancel_on_event on the connection / channel), never to the host-wide disconnection event.",
     'C09.unordered-pairing: no zip() / enumerate() pairs positions with a set (literal, comprehension, set() call or a name bound only to such): the order of a set is arbitrary.',
     'C09.one-shot: no name bound to a generator expression or to filter() / map() / zip() / reversed() / enumerate() is read in more than one consuming position or inside a loop that evaluates it repeatedly: such an iterator is empty after its first walk.',
@@ -1006,7 +1007,13 @@ def waiter_scope(ctx):
     R.check(n >= 3, rule, 'bumble.l2cap | cancel helpers', f'{n} waits tied to a connection', f'only {n} found')
 
 
+def settle_guard_rule(ctx):
+    from ..generic_rules import settle_guard
+    settle_guard(ctx, 'C09.settle-guard', ['bumble.l2cap.ClassicChannel', 'bumble.l2cap.LeCreditBasedChannel'])
+
+
 RULES = [
+    ('C09.settle-guard', settle_guard_rule),
     ('C09.waiter-scope', waiter_scope),
     ('C09.unordered-pairing', unordered_pairing_rule),
     ('C09.one-shot', one_shot_rule),
